@@ -593,3 +593,6 @@ def replay(doc):
     finally:
         if _SCRATCH:
             shutil.rmtree(_SCRATCH, ignore_errors=True)
+
+
+RULE += ' Also (wave 9): every round-trip record is changed by the caller (nested list / dict in place, a string field re-assigned) and saved again.'
